@@ -26,8 +26,7 @@ type STUNConn struct {
 }
 
 const (
-	stunHeaderSize     = 20
-	channelDataPadding = 4
+	stunHeaderSize = 20
 )
 
 // Given a buffer give the last offset of the TURN frame
@@ -39,28 +38,26 @@ func consumeSingleTURNFrame(b []byte) (int, error) {
 		return 0, errIncompleteTURNFrame
 	}
 
-	var datagramSize uint16
+	// Sizes are computed in int: a uint16 would wrap around for length
+	// fields close to 0xFFFF and report a zero-length frame.
+	var datagramSize int
 	switch {
 	case stun.IsMessage(b):
-		datagramSize = binary.BigEndian.Uint16(b[2:4]) + stunHeaderSize
+		datagramSize = int(binary.BigEndian.Uint16(b[2:4])) + stunHeaderSize
 	case ChannelNumber(binary.BigEndian.Uint16(b[0:2])).Valid():
-		datagramSize = binary.BigEndian.Uint16(b[channelDataNumberSize:channelDataHeaderSize])
-		if paddingOverflow := (datagramSize + channelDataPadding) % channelDataPadding; paddingOverflow != 0 {
-			datagramSize = (datagramSize + channelDataPadding) - paddingOverflow
-		}
-
-		datagramSize += channelDataHeaderSize
+		datagramSize = int(binary.BigEndian.Uint16(b[channelDataNumberSize:channelDataHeaderSize]))
+		datagramSize = nearestPaddedValueLength(datagramSize) + channelDataHeaderSize
 	case len(b) < stunHeaderSize:
 		return 0, errIncompleteTURNFrame
 	default:
 		return 0, errInvalidTURNFrame
 	}
 
-	if len(b) < int(datagramSize) {
+	if len(b) < datagramSize {
 		return 0, errIncompleteTURNFrame
 	}
 
-	return int(datagramSize), nil
+	return datagramSize, nil
 }
 
 // ReadFrom implements ReadFrom from net.PacketConn.
